@@ -65,8 +65,19 @@ func stuck() { stuckCount.Add(1) }
 
 func tooStuck() bool { return stuckCount.Load() >= 3 }
 
+// report records a violation and counts it; when many have been recorded the driver stops
+// generating further cases (the evidence is there, and a badly broken queue makes every case slow).
+var nViol atomic.Int64
+
+func report(c *corr.Ctx, v corr.Violation) {
+	nViol.Add(1)
+	c.Violate(v)
+}
+
+func enough() bool { return nViol.Load() >= 200 || tooStuck() || sawPanic.Load() }
+
 func viol(c *corr.Ctx, in any, clause, key, detail string) {
-	c.Violate(corr.Violation{Property: "C16", Clause: clause, Key: key, Where: "pkg/ringbuffer", Input: in, Detail: detail})
+	report(c, corr.Violation{Property: "C16", Clause: clause, Key: key, Where: "pkg/ringbuffer", Input: in, Detail: detail})
 }
 
 // seqOracle evaluates the property on the outputs of the implementation (sequential runs):
@@ -333,7 +344,16 @@ func newSweep(c *corr.Ctx) {
 			return // would allocate the buffer
 		}
 		cs := corr.Case{Name: "new", Nontrivial: true}
-		r, err := ringbuffer.New(size)
+		var r *ringbuffer.RingBuffer
+		var err error
+		func() {
+			defer func() {
+				if e := recover(); e != nil {
+					err = nil // New got past its size check and panicked while allocating
+				}
+			}()
+			r, err = ringbuffer.New(size)
+		}()
 		cs.Ops = append(cs.Ops, fmt.Sprintf("ring new %d", size))
 		pow2 := size&(size-1) == 0 // includes 0, which New accepts (documented in props/C16.json)
 		if err != nil {
@@ -354,14 +374,19 @@ func newSweep(c *corr.Ctx) {
 	for s := uint64(0); s <= 1030; s++ {
 		try(s)
 	}
+	// sizes between 2^20 and 2^45 are not probed: if New ever accepted them it would really
+	// allocate; above 2^45 elements makeslice panics (recovered) instead
 	for k := 0; k < 64; k++ {
+		if k > 20 && k < 45 {
+			continue
+		}
 		try(uint64(1)<<k - 1)
 		try(uint64(1) << k)
 		try(uint64(1)<<k + 1)
 	}
 	try(^uint64(0))
 	for i := 0; i < 200; i++ {
-		try(c.Rng.Uint64())
+		try(c.Rng.Uint64() | 1<<50)
 	}
 	// a size-0 ring exists (New accepts 0): Push / Pull on it panic (index out of range, with the
 	// mutex still held, so each access gets a fresh ring); Close, Reset and Pull-after-Close work
